@@ -2760,6 +2760,7 @@ func runC05(c *Ctx) {
 		"C05.e Draw touches the host only through its Window (SetCell/ShowCursor/New/Size) and image objects",
 		"C05.f the PTY goroutine defers a recover handler that reports and closes",
 		"C05.g every index into a screen ([][]cell) or row ([]cell) is within [0,ROWS-1] / [0,COLS-1]",
+		"C05.k every loop whose bound is a sequence parameter is limited by a screen dimension at its head or leaves early under a test of its own (no hours-long repeat count)",
 		"C05.h the host handle vt.vx is dereferenced only under a nil test",
 	}
 	c.NotDec = []string{
@@ -2909,6 +2910,7 @@ func c05RuleInvariant(c *Ctx, e *c05Eng) {
 	c.expect("C05.b", 30)
 	c.expect("C05.c", 10)
 	c.expect("C05.g", 40)
+	c.expect("C05.k", 6)
 	goals := e.goals()
 	// Every function is first checked on its own (INV at entry, parameters >= 0). A helper whose
 	// proof needs what only its callers know (an extracted loop body taking a row, ...) is then
@@ -3163,6 +3165,28 @@ func c05InvRound(c *Ctx, e *c05Eng, goals []c05Goal, ctxSet map[*FuncInfo]bool) 
 			}
 			add := func(rule, key string, pos token.Pos, ok bool, format string, args ...any) {
 				recs = append(recs, c05Rec{owner: owner, ctx: cx, rule: rule, key: key, pos: pos, ok: ok, msg: fmt.Sprintf(format, args...)})
+			}
+			// C05.k: a loop whose bound is a count parameter is bounded by the screen (or leaves early)
+			if cx, isExpr := n.(ast.Expr); isExpr {
+				if fs := c05ForCondOf(owner, cx); fs != nil {
+					if loopVar, bound := c05CountLoop(e, fr, owner, fs); bound != nil {
+						s2 := st.clone()
+						b := e.linOf(fr, s2, bound)
+						byRows := b.addScaled(c05Atom("ROWS"), -1)
+						byRows.k -= 1
+						byCols := b.addScaled(c05Atom("COLS"), -1)
+						byCols.k -= 1
+						key := fmt.Sprintf("%s/loop over %s < %s is bounded by the screen", fn, loopVar, types.ExprString(bound))
+						switch {
+						case e.prove(s2, byRows) || e.prove(s2, byCols):
+							add("C05.k", key, fs.Pos(), true, "the bound %s is %s", e.showLin(b), e.showVal(e.evalLin(s2, b)))
+						case c05LoopLeavesEarly(fs):
+							add("C05.k", key, fs.Pos(), true, "the bound %s is only limited by the parameter, but the body leaves the loop (break/return) under a test of its own", e.showLin(b))
+						default:
+							add("C05.k", key, fs.Pos(), false, "the loop runs %s times (%s) with no exit of its own: a sequence with a huge parameter (the parser delivers values up to 2^30) keeps the emulator busy, holding its mutex, for minutes to hours — child output is no longer processed and Draw blocks", e.showLin(b), e.showVal(e.evalLin(s2, b)))
+						}
+					}
+				}
 			}
 			inspectNoLit(n, func(m ast.Node) bool {
 				switch x := m.(type) {
@@ -3918,4 +3942,109 @@ func c05RuleVx(c *Ctx, e *c05Eng) {
 			}
 		}
 	}
+}
+
+
+// ---- C05.k helpers
+
+var c05ForConds = map[*FuncInfo]map[ast.Expr]*ast.ForStmt{}
+
+func c05ForCondOf(fi *FuncInfo, cond ast.Expr) *ast.ForStmt {
+	m, ok := c05ForConds[fi]
+	if !ok {
+		m = map[ast.Expr]*ast.ForStmt{}
+		if fi.Decl.Body != nil {
+			inspectNoLit(fi.Decl.Body, func(n ast.Node) bool {
+				if fs, ok := n.(*ast.ForStmt); ok && fs.Cond != nil {
+					m[fs.Cond] = fs
+				}
+				return true
+			})
+		}
+		c05ForConds[fi] = m
+	}
+	return m[cond]
+}
+
+// c05CountLoop: `for v ...; v < B; v++` (or <=) whose bound B mentions a count parameter of the function.
+func c05CountLoop(e *c05Eng, fr *c05Frame, fi *FuncInfo, fs *ast.ForStmt) (string, ast.Expr) {
+	be, ok := unparen(fs.Cond).(*ast.BinaryExpr)
+	if !ok {
+		return "", nil
+	}
+	var v, b ast.Expr
+	switch be.Op {
+	case token.LSS, token.LEQ:
+		v, b = be.X, be.Y
+	case token.GTR, token.GEQ:
+		v, b = be.Y, be.X
+	default:
+		return "", nil
+	}
+	id, ok := unparen(v).(*ast.Ident)
+	if !ok {
+		return "", nil
+	}
+	// the loop variable is stepped upwards by the post statement
+	up := false
+	switch p := fs.Post.(type) {
+	case *ast.IncDecStmt:
+		up = p.Tok == token.INC && fr.info.ObjectOf(id) == rootObj(fr.info, p.X)
+	case *ast.AssignStmt:
+		up = p.Tok == token.ADD_ASSIGN && len(p.Lhs) == 1 && fr.info.ObjectOf(id) == rootObj(fr.info, p.Lhs[0])
+	}
+	if !up {
+		return "", nil
+	}
+	params := map[types.Object]bool{}
+	if fi.Decl.Type.Params != nil {
+		for _, f := range fi.Decl.Type.Params.List {
+			for _, nm := range f.Names {
+				if o := fr.info.Defs[nm]; o != nil && e.isCountType(o.Type()) {
+					params[o] = true
+				}
+			}
+		}
+	}
+	tainted := containsNode(b, func(m ast.Node) bool {
+		i2, ok := m.(*ast.Ident)
+		return ok && params[fr.info.ObjectOf(i2)]
+	})
+	if !tainted {
+		return "", nil
+	}
+	return id.Name, b
+}
+
+// c05LoopLeavesEarly: the body has a break or return of its own (not inside a nested loop, switch or literal).
+func c05LoopLeavesEarly(fs *ast.ForStmt) bool {
+	found := false
+	var walk func(n ast.Node, inSwitch bool)
+	walk = func(n ast.Node, inSwitch bool) {
+		ast.Inspect(n, func(m ast.Node) bool {
+			if found || m == nil {
+				return false
+			}
+			switch t := m.(type) {
+			case *ast.ForStmt, *ast.RangeStmt, *ast.FuncLit:
+				if m != n {
+					return false
+				}
+			case *ast.SwitchStmt, *ast.TypeSwitchStmt, *ast.SelectStmt:
+				if m != n {
+					walk(m, true)
+					return false
+				}
+			case *ast.ReturnStmt:
+				found = true
+			case *ast.BranchStmt:
+				if t.Tok == token.BREAK && (!inSwitch || t.Label != nil) {
+					found = true
+				}
+			}
+			return true
+		})
+	}
+	walk(fs.Body, false)
+	return found
 }
